@@ -104,6 +104,8 @@ type Exec struct {
 	curProps   []string
 	loadSeen   map[string]bool
 	curClause        *Clause
+	collect          *[]*State
+	splitBudget      int
 	goalMode         bool
 	usedContracts    map[string]bool
 	pendingWriteBack []writeBack
@@ -542,13 +544,72 @@ func (x *Exec) selection(e *ast.SelectorExpr) *types.Selection {
 
 // execBlock executes statements; returns the fall-through state or nil.
 func (x *Exec) execBlock(s *State, list []ast.Stmt) *State {
-	for _, st := range list {
+	for idx, st := range list {
 		if s == nil || s.dead {
 			return nil
+		}
+		if x.splitBudget > 0 && len(x.frames) == 1 && idx+1 < len(list) {
+			switch st.(type) {
+			case *ast.IfStmt, *ast.SwitchStmt:
+				var outs []*State
+				x.collect = &outs
+				base := s.clone()
+				r := x.execStmt(s, st)
+				x.collect = nil
+				if r != nil {
+					outs = append(outs, r)
+				}
+				if len(outs) <= 1 {
+					if len(outs) == 0 {
+						return nil
+					}
+					s = outs[0]
+					continue
+				}
+				x.splitBudget -= len(outs) - 1
+				var results []*State
+				for _, o := range outs {
+					if o == nil || o.dead {
+						continue
+					}
+					if r := x.execBlock(o, list[idx+1:]); r != nil {
+						results = append(results, r)
+					}
+				}
+				// at the end of the function body every path is its own return
+				if body := x.frames[0].fi.Decl.Body.List; len(body) > 0 && &body[len(body)-1] == &list[len(list)-1] {
+					f := x.frames[0]
+					for _, r := range results {
+						if r.dead {
+							continue
+						}
+						var vals []*Term
+						for _, ro := range f.results {
+							vals = append(vals, r.env[ro])
+						}
+						f.rets = append(f.rets, &RetState{s: r, vals: vals})
+					}
+					return nil
+				}
+				return x.merge(base, results...)
+			}
 		}
 		s = x.execStmt(s, st)
 	}
 	return s
+}
+
+// joinOuts merges the out-states of a branching statement, or hands them to the enclosing block in split mode
+func (x *Exec) joinOuts(collect *[]*State, base *State, outs ...*State) *State {
+	if collect != nil {
+		for _, o := range outs {
+			if o != nil && !o.dead {
+				*collect = append(*collect, o)
+			}
+		}
+		return nil
+	}
+	return x.merge(base, outs...)
 }
 
 func (x *Exec) execStmt(s *State, st ast.Stmt) *State {
@@ -700,6 +761,8 @@ func (x *Exec) execBranch(s *State, n *ast.BranchStmt) *State {
 }
 
 func (x *Exec) execIf(s *State, n *ast.IfStmt) *State {
+	collect := x.collect
+	x.collect = nil
 	if n.Init != nil {
 		s = x.execStmt(s, n.Init)
 		if s == nil {
@@ -725,10 +788,12 @@ func (x *Exec) execIf(s *State, n *ast.IfStmt) *State {
 			s2 = e
 		}
 	}
-	return x.merge(s, s1, s2)
+	return x.joinOuts(collect, s, s1, s2)
 }
 
 func (x *Exec) execSwitch(s *State, n *ast.SwitchStmt) *State {
+	collect := x.collect
+	x.collect = nil
 	if n.Init != nil {
 		s = x.execStmt(s, n.Init)
 		if s == nil {
@@ -803,7 +868,7 @@ func (x *Exec) execSwitch(s *State, n *ast.SwitchStmt) *State {
 	}
 	f.loops = f.loops[:len(f.loops)-1]
 	outs = append(outs, lc.breaks...)
-	return x.merge(s, outs...)
+	return x.joinOuts(collect, s, outs...)
 }
 
 func (x *Exec) execTypeSwitch(s *State, n *ast.TypeSwitchStmt) *State {
